@@ -77,6 +77,8 @@ def obligations(tier):
             obls.append(CH("transitive_p%d" % p, H, "transitive", t, mode="E1s", functions=FE, stubs=[ANTLR], env={"VERIF_PART": str(p)},
                            bounds="all triples of 31 shapes (first shape %% 8 == %d) x 3x3 atoms" % p))
     obls.append(CH("documented_rewrites", H, "rewrites", t, mode="E1s", functions=FE, stubs=[ANTLR], bounds="26 documented rewrites (both directions), 56 non-equivalences (integers beyond 2^53, paths through index 0; special-value canonicalisation confined to its paths, object types and operators: longer / shorter paths, other types, MATCHES / LIKE / order operators, the same literal on a special and an ordinary path), each after a fixed history of special-value comparisons, also by search"))
+    obls.append(CH("special_path_matcher", H, "path_matcher", t, mode="E1s", functions=["stix2.equivalence.pattern.transform.specials._path_is"],
+                   bounds="every object path of 1-4 steps over an 8-symbol alphabet (keys, indices, *) x 6 path patterns (the three used by the library, wildcards, the empty pattern): match iff same length and step-wise match"))
     obls.append(CH("documented_rewrites_in_context", H, "rewrites_nested", t, mode="E1s", functions=FE + FT, stubs=[ANTLR],
                    bounds="26 documented rewrites x 19 comparison-/observation-level contexts (one and two holes): C[p] ~ C[q] both directions and by search"))
     obls.append(CH("special_values_total", H, "specials_total", t, mode="E1s", functions=FS + FE, stubs=[ANTLR],
